@@ -47,7 +47,7 @@ def draw_cfg(rng, profile, tier):
                                             'small3', 'pos', 'tiny'])),
         'alpha': rng.choice(p.get('alphas', ['ascii', 'ascii', 'num', 'punct',
                                              'slash', 'unicode', 'long',
-                                             'natsort', 'ws'])),
+                                             'natsort', 'ws', 'labels'])),
         'ctrl_md': int(rng.random() < p.get('ctrl_md', 0.0)),
         'pool': rng.choice(p.get('pools', [2, 3, 4, 6, 6])),
         'len': rng.choice(p.get('lens', [6, 10, 16, 24, 40, 60])),
@@ -195,7 +195,7 @@ class Gen:
                 'nc': nc, 'stride': nc, 'cells': cells, 'io': io, 'is': is_,
                 'mdo': mdmask(), 'mds': mdmask(), 'salt': rng.randrange(1000),
                 'type': rng.randrange(len(V.TABLE_TYPES)) if rng.random() < .7
-                else 0, 'tid': rng.randrange(3), 'ids_as': rng.randrange(3),
+                else 0, 'tid': rng.randrange(3), 'ids_as': rng.randrange(4),
                 'dst': rng.randrange(8)}
 
     def _slot(self, w, pred=None):
@@ -479,7 +479,7 @@ class Gen:
                 ev['ax'] = 1          # the axis that leaves unsorted indices
         elif name == 'rebuild':
             ev.update(route=rng.randrange(len(ROUTES)),
-                      salt=rng.randrange(100), ids_as=rng.randrange(3))
+                      salt=rng.randrange(100), ids_as=rng.randrange(4))
         elif name == 'fulldepth':
             ev['seed'] = rng.randrange(10 ** 6)
         return ev
